@@ -13,7 +13,7 @@ M(d, s, p, po) == [dst |-> d, st |-> s, src |-> p, ports |-> po]
 Sts == {"any", "same", "ext"}
 \* match tuples for the exhaustive pairs
 Dst1 == {<<>>, <<<<4, 0, 0>>>>, <<<<4, 4, 2>>>>, <<<<4, 5, 4>>>>}
-Src1 == {<<>>, <<<<4, 8, 2>>>>, <<<<4, 9, 4>>>>}
+Src1 == {<<>>, <<<<4, 9, 4>>>>} \cup (IF Big = 1 THEN {<<<<4, 8, 2>>>>} ELSE {})
 Po1  == {<<>>, <<7>>}
 T1 == {M(d, s, p, po) : d \in Dst1, s \in Sts, p \in Src1, po \in Po1}
 \* richer tuples (IPv6, several prefixes / ports per chain) combined with one T1 tuple or in triples
@@ -33,22 +33,22 @@ Group(s) ==
     [] s = "c3a" -> {Cfg(<<a, b, c>>, FALSE) : a, b, c \in T3}
     [] OTHER -> {}
 Lookups == {[f |-> f, dst |-> d, src |-> s, port |-> p] :
-              f \in {4, 6}, d \in {4, 5, 6, 13}, s \in {5, 8, 9, 10, 14, LO}, p \in {7, 9}}
+              f \in {4, 6}, d \in {4, 5, 13} \cup (IF Big = 1 THEN {6} ELSE {}),
+              s \in {5, 8, 9, 14, LO} \cup (IF Big = 1 THEN {10} ELSE {}), p \in {7, 9}}
 Init == (kind = "seed" /\ x \in {"c0", "c2a", "c2b", "c3a"}) \/ (kind = "lk" /\ x \in Lookups)
 Next == kind = "seed" /\ kind' = "cfg" /\ x' \in Group(x)
 
 IsCfg == kind = "cfg"
-\* an unambiguous configuration never leaves two chains after the four stages
-I_Unique == (IsCfg /\ ~Ambiguous(x)) => \A lk \in Lookups : Cardinality(Final(x.chains, lk)) <= 1
-\* an ambiguous configuration does tie for some connection of the (unbounded) address space:
-\* on the bounded lookups we only require that a tie implies ambiguity
-I_TieIsAmbiguous == IsCfg => ((\E lk \in Lookups : Cardinality(Final(x.chains, lk)) > 1) => Ambiguous(x))
 \* the selected chain matches the connection, is the most specific on the destination prefix among
 \* all chains matching on it, and (given that) on the source type, etc.; the default chain is used
 \* only when no chain survives
 I_MostSpecific ==
   (IsCfg /\ ~Ambiguous(x)) => \A lk \in Lookups :
-     LET cs == x.chains  r == Select(x, lk) IN
+     LET cs == x.chains
+         F == Final(cs, lk)
+         r == IF F # {} THEN CHOOSE i \in F : TRUE ELSE IF x.def THEN 0 ELSE -1
+     IN
+     /\ Cardinality(F) <= 1          \* an unambiguous configuration never ties
      /\ (r > 0 =>
           /\ Matches(cs[r], lk)
           /\ \A j \in 1..Len(cs) : Spec(cs[j].dst, lk.f, lk.dst) <= Spec(cs[r].dst, lk.f, lk.dst)
